@@ -500,6 +500,11 @@ func init() {
 		if err != nil {
 			panic(err)
 		}
+		// ONE events.Listener serves every retry-by-tx step of the sequence (like the listener object shared by the
+		// handlers in app.Run); the chain it reads changes between the steps
+		txBridge := common.Address{7}
+		txClient := &c04EvmClient{bridge: txBridge, data: data}
+		txListener := events.NewListener(txClient)
 		out := []string{}
 		for _, st := range items(a[3], ";") {
 			f := strings.Split(st, ",")
@@ -516,9 +521,8 @@ func init() {
 					out = append(out, procOut(err, pe.calls))
 				}
 			case "t":
-				bridge := common.Address{7}
-				l := events.NewListener(&c04EvmClient{latest: f[1], receipt: f[2], bridge: bridge, data: data})
-				ds, err := l.FetchRetryDepositEvents(events.RetryV1Event{TxHash: "0x01"}, bridge, cp)
+				txClient.latest, txClient.receipt = f[1], f[2]
+				ds, err := txListener.FetchRetryDepositEvents(events.RetryV1Event{TxHash: "0x01"}, txBridge, cp)
 				if err != nil {
 					out = append(out, "err")
 				} else {
@@ -723,6 +727,19 @@ func genC04(g *G) {
 	for _, fl := range []string{"-", "g", "t", "w", "u", "n", "c", "u,u", "n,g", "t,t,t", "u,n,u"} {
 		for _, lh := range [][2]string{{"13", "10"}, {"12", "10"}, {"200", "150"}, {"150", "150"}, {"18446744073709551716", "18446744073709551711"}} {
 			g.Emit("evmretryreal", lh[0], lh[1], "2", fl)
+		}
+	}
+	// retry-by-tx requests one after the other on ONE events.Listener: an accepted one at block N, then one at N+d with a
+	// head around ITS boundary, all small d (inside and outside (N, N+conf])
+	for conf := int64(1); conf <= 3; conf++ {
+		for d := int64(-2); d <= conf+2; d++ {
+			for dl := int64(-1); dl <= 1; dl++ {
+				n := int64(20)
+				first := "t," + itoa64(n+conf+1) + "," + itoa64(n)
+				second := "t," + itoa64(n+d+conf+dl) + "," + itoa64(n+d)
+				g.Emit("seq", "evm", itoa64(conf), "2", first+";"+second)
+				g.Emit("seq", "evm", itoa64(conf), "2", first+";"+second+";"+second+";r,"+itoa64(n+d+conf+dl)+","+itoa64(n+d))
+			}
 		}
 	}
 	// two retries in flight on the one shared handler: all boundary combinations, both release orders
